@@ -65,7 +65,7 @@ def main():
                     print(r.stdout[-1500:])
         finally:
             shutil.rmtree(d, ignore_errors=True)
-    missed = [r for r in results if "CAUGHT" not in r[2]]
+    missed = [r for r in results if "CAUGHT" not in str(r[2])]
     print(f"\n{len(results) - len(missed)}/{len(results)} caught")
     with open(os.path.join(HERE, "last_controls.json" if controls else "last_results.json"), "w") as f:
         json.dump(results, f, indent=1)
